@@ -28,4 +28,5 @@ def main(tier):
     chk.run("R-IFACE", C.iface, cx.cpp, cx.templates, floor=80)
     chk.run("R-COPY", C.copy_rule, cx.cpp, cx.templates, floor=6)
     chk.run("R-STORAGEIFACE", C.storageiface, cx.cpp, cx.templates, floor=12)
+    chk.run("R-PARAMCOPY", B.paramcopy, cx.repo, cx.templates, floor=3)
     return chk.finish()
